@@ -1,3 +1,4 @@
 pub mod c12;
 pub mod c18;
 pub mod world_clause;
+pub mod worldprops;
